@@ -2,6 +2,7 @@ package main
 
 import (
 	"go/token"
+	"go/types"
 	"strings"
 
 	"golang.org/x/tools/go/ssa"
@@ -236,6 +237,100 @@ func runC17(w *World, r *Report) {
 	}
 	// R3 state store
 	cacheCore(w, r, la, false)
+	c17Wiring(w, r)
+	r.Min("R3", 2)
 	r.Min("R1", 8)
 	r.Min("R2", 7)
+}
+
+// c17Wiring: (a) the retry plugin's sequence store can never refuse a write
+// (no size bound is configured on it: WithMaxCacheSize is called by the
+// reviewed callers only), (b) the synthetic response built for a
+// gateway-generated early response carries the request's own sequence id - and
+// every other field from the field of the same name.
+func c17Wiring(w *World, r *Report) {
+	allowed := map[string]string{"(*lunar/engine/services/remedies.CachingPlugin).OnResponse": "the caching remedy bounds its response cache (C12.R5)"}
+	n := 0
+	for _, cs := range w.CallSites("utils.Cache).WithMaxCacheSize", "MemoryCache).WithMaxCacheSize") {
+		id := fnID(outermost(cs.Fn))
+		if strings.Contains(id, "/test") || strings.HasSuffix(cs.Fn.Prog.Fset.Position(cs.In.Pos()).Filename, "_test.go") {
+			continue
+		}
+		n++
+		why, ok := allowed[id]
+		r.Check(ok, "R3", "state-store-unbounded/WithMaxCacheSize-caller/"+shortFn(id), posOf(cs.In), "a size bound is configured by %s (%s): a bounded store refuses Set when full, and the retry plugin only logs that error, so a tracked sequence would keep its old attempts budget", shortFn(id), why)
+	}
+	if n == 0 {
+		r.Undec("R3", "state-store-unbounded/callers", token.NoPos, "no WithMaxCacheSize call site found (positive example missing)")
+	}
+	if np := w.Fn(pkgRemedies, "NewRetryPlugin"); np == nil {
+		r.Undec("R3", "NewRetryPlugin", token.NoPos, "constructor not found")
+	} else {
+		ok := len(CallsIn(np, true, "WithMaxCacheSize")) == 0
+		for _, alt := range ReturnAlts(np, 0) {
+			c := litField(alt.Val, "cache")
+			ok = ok && c != nil && Derives(c, func(x ssa.Value) bool { return isCallTo0(x, "utils.NewMemoryCache") })
+		}
+		r.Check(ok, "R3", "state-store-unbounded/NewRetryPlugin", np.Pos(), "the retry plugin's state store is a fresh MemoryCache without a size bound")
+	}
+	om := w.Fn(pkgRunner, "obtainModifiedEarlyResponse")
+	if om == nil {
+		r.Undec("R2", "obtainModifiedEarlyResponse", token.NoPos, "function not found")
+		return
+	}
+	var lit *ssa.Alloc
+	Instrs(om, func(in ssa.Instruction) {
+		if a, ok := in.(*ssa.Alloc); ok && structOf(a.Type()) == "OnResponse" {
+			lit = a
+		}
+	})
+	if lit == nil {
+		r.Undec("R2", "obtainModifiedEarlyResponse/literal", om.Pos(), "synthetic OnResponse literal not found")
+		return
+	}
+	st := deref(lit.Type()).Underlying().(*types.Struct)
+	var wrong []string
+	copied := 0
+	for i := 0; i < st.NumFields(); i++ {
+		dst := st.Field(i).Name()
+		v := litField(lit, dst)
+		if v == nil {
+			continue
+		}
+		// a plain copy of a field of another struct value
+		var srcField string
+		var srcType types.Type
+		switch x := peel(v).(type) {
+		case *ssa.UnOp:
+			if fa, ok := x.X.(*ssa.FieldAddr); ok && x.Op == token.MUL {
+				srcField, srcType = fieldName(fa.X.Type(), fa.Field), fa.X.Type()
+			}
+		case *ssa.Field:
+			srcField, srcType = fieldName(x.X.Type(), x.Field), x.X.Type()
+		}
+		if srcField == "" {
+			continue
+		}
+		copied++
+		if srcField != dst && hasField(srcType, dst) {
+			wrong = append(wrong, dst+" <- "+Path(v))
+		}
+	}
+	seq := litField(lit, "SequenceID")
+	okSeq := seq != nil && strings.HasSuffix(Path(seq), "onRequest.SequenceID")
+	r.Check(len(wrong) == 0 && okSeq && copied >= 5, "R2", "synthetic-response/fields-copied-from-same-named-fields", lit.Pos(),
+		"the OnResponse built for a gateway-generated early response copies each field from the field of the same name (SequenceID <- %s); mismatches: %v", Path(seq), wrong)
+}
+
+func hasField(t types.Type, name string) bool {
+	st, ok := deref(t).Underlying().(*types.Struct)
+	if !ok {
+		return false
+	}
+	for i := 0; i < st.NumFields(); i++ {
+		if st.Field(i).Name() == name {
+			return true
+		}
+	}
+	return false
 }
